@@ -1219,6 +1219,49 @@ pub fn generate(prop: &str, out: &mut Out, thorough: bool, seed: u64) -> bool {
                 }
             }
         }
+        // exact-fit, systematic: every sequence of three items over five classes (ASCII, a 2-byte and a
+        // 3-byte UTF-8 character, an astral character, an invalid byte), with the first destination ending
+        // exactly after the first or after the second item; sink and replacement mode alternate
+        if prop != "C07" {
+            let classes: Vec<Vec<u8>> = ['a', '\u{E9}', '\u{3042}', '\u{1F4A9}']
+                .iter()
+                .map(|&ch| {
+                    if e == UTF_16LE || e == UTF_16BE {
+                        let mut b = [0u16; 2];
+                        ch.encode_utf16(&mut b).iter().flat_map(|u| if e == UTF_16LE { u.to_le_bytes() } else { u.to_be_bytes() }).collect()
+                    } else {
+                        let mut b = [0u8; 4];
+                        let (bytes, _, unmappable) = e.encode(ch.encode_utf8(&mut b));
+                        if unmappable {
+                            vec![b'b']
+                        } else {
+                            bytes.into_owned()
+                        }
+                    }
+                })
+                .chain(std::iter::once(vec![0xFFu8]))
+                .collect();
+            let mut idx = 0usize;
+            for a in 0..classes.len() {
+                for b in 0..classes.len() {
+                    for c in 0..classes.len() {
+                        let items = [&classes[a], &classes[b], &classes[c]];
+                        let stream: Vec<u8> = items.iter().flat_map(|v| v.iter().copied()).collect();
+                        for k in 1..=2usize {
+                            idx += 1;
+                            let sink16 = idx % 2 == 0;
+                            let repl = (idx / 2) % 2 == 0;
+                            let prefix: Vec<u8> = items[..k].iter().flat_map(|v| v.iter().copied()).collect();
+                            let (text, _) = e.decode_without_bom_handling(&prefix);
+                            let units: usize = text.chars().map(|ch| if sink16 { ch.len_utf16() } else { ch.len_utf8() }).sum();
+                            let c0 = units.max(min_cap(sink16));
+                            let p = Plan { enc: e, bom: Bom::Off, sink16, repl, stream: stream.clone(), cuts: vec![stream.len()], caps: vec![c0, 1000, 1000, 1000, 1000, 1000, 1000, 1000], skip: false };
+                            emit(out, &p, &props);
+                        }
+                    }
+                }
+            }
+        }
         // bulk / fast-path regime: an ASCII run whose length sits around a stride boundary, then one
         // non-ASCII character (valid or not), then a short tail; capacities around the run length so that
         // the destination runs out inside the run, right before / inside / right after the character
